@@ -24,7 +24,8 @@ def run(tier, seed):
                            {"cfg": "MC_Handshake_noclear", "result": "counterexample to ProofBeforeConnected when disconnect keeps the challenge (as expected)"}]
     sp = os.path.join(lib.outdir(PID), "scripts.ndjson")
     pp = os.path.join(lib.outdir(PID), "params.ndjson")
-    r = lib.tlc("mc/MC_Handshake.tla", "gen/Gen_Handshake.cfg", PID, "gen", workers=1, env={"MODE": "scripts", "OUT": sp, "OUT_PARAMS": pp})
+    fp = os.path.join(lib.outdir(PID), "families.ndjson")
+    r = lib.tlc("mc/MC_Handshake.tla", "gen/Gen_Handshake.cfg", PID, "gen", workers=1, env={"MODE": "scripts", "OUT": sp, "OUT_PARAMS": pp, "OUT_FAM": fp})
     edges = r.printed()
     if r.rc != 0 or not edges:
         raise lib.ToolError("handshake emitter failed")
@@ -83,6 +84,26 @@ def run(tier, seed):
                 v.add_drift(f"call result {got['ret']} vs model {exp['ret']}", case)
     v.cov["traces_validated_against_impl"] = n
     v.cov["call_paths_walked_on_impl"] = paths_total
+    # ---- message families: every member of a message class is handled like the class's representative (the one the transitions above use)
+    fam = lib.read_ndjson(fp)
+    fo = os.path.join(lib.outdir(PID), "family_obs.ndjson")
+    lib.harness(["hs-family", fp, pp, fo], timeout=600)
+    fobs = lib.read_ndjson(fo)
+    if len(fobs) != len(fam) * len(params):
+        raise lib.ToolError("family runner returned too few observations")
+    accepted = {("status", "ok"), ("status", "ok_simultaneous"), ("challenge", "good"), ("ack", "right")}
+    for o in fobs:
+        f = fam[o["i"]]
+        v.case("family" + json.dumps([o["param"], o["i"]]))
+        what = {k: (x if not isinstance(x, list) or len(x) <= 80 else x[:80] + ["..."]) for k, x in f.items()}
+        case = {"param_set": o["param"], "message": what, "handled_as": o["member"], "class_representative_handled_as": o["representative"]}
+        if o["representative"].get("panic") or ((f["msg"], f["class"]) in accepted) != (o["representative"].get("ret") == "ok") and f["class"] not in ("good_extra_bytes", "right_extra_bytes"):
+            raise lib.ToolError("family runner: the representative of class %s / %s is not handled as the model says" % (f["msg"], f["class"]))
+        if o["member"].get("panic"):
+            v.violation("a handshake message made its handler panic", case)
+        elif o["member"] != o["representative"]:
+            v.violation("a handshake message is not handled like the other messages of its class (result, state or negotiated flags differ)", case)
+    v.cov["family_members_run"] = len(fobs)
     # ---- layer 2: scripted peer over TCP
     use_params = params if thorough else params[:2]
     pp2 = os.path.join(lib.outdir(PID), "params_used.ndjson")
